@@ -1,9 +1,193 @@
-import FpgoVerif.Model.C19
-/-! Property theorems for C19. -/
+import FpgoVerif.Proofs.C19Desc
+/-! Property theorems for C19 — "Sorting yields an ordered, stable permutation; descriptors sort by key
+    list".  All statements are about the definitions of `Model/C19.lean` that the driver executes.
+
+    Standing assumption (see Model/C19.lean): `sort.SliceStable` is `sortBy` (= core `List.mergeSort`);
+    `C19_sort_unique` shows that for a strict weak order ANY ordered, stable permutation equals
+    `sortBy less l`, so the assumption is exactly "`sort.SliceStable` is a correct stable sort". -/
 namespace FpgoVerif.C19
 
-/-- `sortBy less l` is a permutation of `l` (any comparator). -/
-theorem C19_sort_perm {α : Type} (less : α → α → Bool) (l : List α) : (sortBy less l).Perm l :=
-  List.mergeSort_perm l _
+variable {α : Type}
+
+/-! ## (1) generic: `Sort`, `SortSlice`, `Stream.Sort`, `Stream.SortByIndex` -/
+
+/-- All comparator-based sort entry points of the library compute `sortBy fn input`
+    (in place / on a clone / via the index comparator), and the ones that work on a clone leave the
+    receiver's content as it was. -/
+theorem C19_api_is_sortBy (fn : α → α → Bool) (l : List α) :
+    sort fn l = sortBy fn l ∧ sortSlice fn l = sortBy fn l ∧
+    streamSort fn l = (sortBy fn l, l) ∧ streamSortByIndex fn l = (sortBy fn l, l) :=
+  ⟨rfl, rfl, rfl, rfl⟩
+
+/-- permutation (any comparator) -/
+theorem C19_sort_perm (less : α → α → Bool) (l : List α) : (sortBy less l).Perm l :=
+  sortBy_perm less l
+
+/-- ordered: no element precedes one that the comparator places strictly before it -/
+theorem C19_sort_ordered {less : α → α → Bool} (h : StrictWeak less) (l : List α) :
+    (sortBy less l).Pairwise (fun a b => less b a = false) :=
+  sortBy_pairwise h l
+
+/-- stable: each class of elements the comparator does not distinguish appears in its input order -/
+theorem C19_sort_stable {less : α → α → Bool} (h : StrictWeak less) (l : List α) (x : α) :
+    (sortBy less l).filter (equivBy less x) = l.filter (equivBy less x) :=
+  sortBy_filter_equiv h l x
+
+/-- stable, position form: tag every element with its input position; in the output, elements the
+    comparator does not distinguish appear with increasing input positions. -/
+theorem C19_sort_stable_positions {less : α → α → Bool} (h : StrictWeak less) (l : List α) :
+    (sortBy (fun p q : α × Nat => less p.1 q.1) l.zipIdx).Pairwise
+      (fun p q => equivBy less p.1 q.1 = true → p.2 < q.2) := by
+  have hl : StrictWeak (fun p q : α × Nat => less p.1 q.1) :=
+    ⟨fun a => h.irrefl a.1, fun a b c => h.trans, fun a b c => h.negTrans c.1⟩
+  have hidx : (l.zipIdx).Pairwise (fun p q : α × Nat => p.2 < q.2) := by
+    have := List.pairwise_lt_range (n := l.length)
+    rw [List.pairwise_iff_getElem] at this ⊢
+    intro i j hi hj hij
+    simp at hi hj
+    simp [hij]
+  rw [List.pairwise_iff_forall_sublist]
+  intro p q hsub he
+  have hs := hsub.filter (equivBy (fun p q : α × Nat => less p.1 q.1) p)
+  rw [sortBy_filter_equiv hl] at hs
+  have e1 : equivBy (fun p q : α × Nat => less p.1 q.1) p p = true := equivBy_refl hl p
+  have e2 : equivBy (fun p q : α × Nat => less p.1 q.1) p q = true := he
+  rw [List.filter_cons_of_pos e1, List.filter_cons_of_pos e2, List.filter_nil] at hs
+  have := (hs.trans List.filter_sublist)
+  exact (List.pairwise_iff_forall_sublist.mp hidx) this
+
+/-- uniqueness: an ordered, stable permutation of `l` IS `sortBy less l` — any correct stable sort
+    (in particular `sort.SliceStable`) agrees with the model. -/
+theorem C19_sort_unique {less : α → α → Bool} (h : StrictWeak less) (l r : List α)
+    (hperm : r.Perm l) (hord : r.Pairwise (fun a b => less b a = false))
+    (hstable : ∀ x, r.filter (equivBy less x) = l.filter (equivBy less x)) :
+    r = sortBy less l :=
+  stable_sorted_unique h r (sortBy less l) (hperm.trans (sortBy_perm less l).symm) hord
+    (sortBy_pairwise h l) (fun x => (hstable x).trans (sortBy_filter_equiv h l x).symm)
+
+/-! ## (2) the comparators the library builds -/
+
+/-- `SortOrderedAscending` sorts by `<` : its comparator `CompareToOrdered(a, b) > 0` IS `a < b`. -/
+theorem C19_sortOrdered_asc {κ : Type} (lt : κ → κ → Bool) (l : List κ) :
+    sortOrderedAscending lt l = sortBy lt l ∧ sortOrdered lt true l = sortBy lt l := by
+  have : (fun a b => decide (compareToOrdered lt a b > 0)) = lt := by
+    funext a b
+    cases h : lt a b <;> cases h' : lt b a <;> simp [compareToOrdered, h, h']
+  simp [sortOrderedAscending, sortOrdered, sort, this]
+
+/-- `SortOrderedDescending` sorts by `>` : its comparator `CompareToOrdered(a, b) < 0` IS `b < a`
+    (for an asymmetric `<`, which Go's `<` on integers and strings is). -/
+theorem C19_sortOrdered_desc {κ : Type} {lt : κ → κ → Bool} (h : StrictWeak lt) (l : List κ) :
+    sortOrderedDescending lt l = sortBy (fun a b => lt b a) l ∧
+    sortOrdered lt false l = sortBy (fun a b => lt b a) l := by
+  have : (fun a b => decide (compareToOrdered lt a b < 0)) = (fun a b => lt b a) := by
+    funext a b
+    cases h1 : lt a b <;> cases h2 : lt b a <;> simp [compareToOrdered, h1, h2]
+    have := h.asymm h1; rw [h2] at this; cases this
+  simp [sortOrderedDescending, sortOrdered, sort, this]
+
+/-- Go's `<` on `int` and on `string` (bytewise lexicographic = core's order on byte lists) and the
+    natural order on keys are strict weak orders, so (1) applies to `SortOrdered*`. -/
+theorem C19_natural_orders_strictWeak :
+    StrictWeak intLt ∧ StrictWeak bytesLt ∧ StrictWeak Key.lt ∧
+    (∀ a b : List Nat, bytesLt a b = true ↔ a < b) := by
+  refine ⟨⟨fun a => by simp [intLt], fun a b c => by simp [intLt]; omega, fun a b c => by simp [intLt]; omega⟩,
+    ⟨bytesLt_irrefl, bytesLt_trans, fun a b c hab => ?_⟩, ⟨Key.lt_irrefl, Key.lt_trans, fun a b c hab => ?_⟩,
+    bytesLt_iff_lt⟩
+  · rcases bytesLt_trichotomy a c with e | e | e
+    · subst e; exact .inr (by
+        rcases bytesLt_trichotomy a b with e | e | e
+        · subst e; rw [bytesLt_irrefl] at hab; cases hab
+        · exact e
+        · rw [bytesLt_asymm hab] at e; cases e)
+    · exact .inl e
+    · exact .inr (bytesLt_trans _ _ _ e hab)
+  · rcases Key.lt_trichotomy a c with e | e | e
+    · subst e; exact .inr hab
+    · exact .inl e
+    · exact .inr (Key.lt_trans _ _ _ e hab)
+
+/-- Both `CompareTo` implementations (`ComparableOrdered[T]`, `ComparableString`) follow one sign
+    convention: negative / zero / positive iff the receiver is naturally before / equal to / after the
+    argument.  (The pinned commit had `ComparableOrdered` the other way round.) -/
+theorem C19_compareTo_sign (a b : Key) :
+    (a.compareTo b < 0 ↔ a.lt b = true) ∧ (a.compareTo b = 0 ↔ a = b) ∧ (a.compareTo b > 0 ↔ b.lt a = true) := by
+  rcases Key.lt_trichotomy a b with h | h | h
+  · subst h; simp [Key.compareTo_self, Key.lt_irrefl]
+  · have hne : a ≠ b := by intro e; subst e; rw [Key.lt_irrefl] at h; cases h
+    simp [Key.compareTo_of_lt h, h, Key.lt_asymm h, hne]
+  · have hne : a ≠ b := by intro e; subst e; rw [Key.lt_irrefl] at h; cases h
+    simp [Key.compareTo_of_gt h, h, Key.lt_asymm h, hne]
+
+/-- The comparator of `SortBySortDescriptors` — the mirrored recursion of
+    `_compareBySortDescriptors(…) < 0` incl. nil keys, direction and tie-break recursion — IS the
+    lexicographic order by the descriptors' keys: natural order (nil first) for an ascending
+    descriptor, reversed for a descending one, later descriptors breaking ties of earlier ones; for
+    every mix of `ComparableOrdered[int]`, `ComparableOrdered[string]` and `ComparableString` keys. -/
+theorem C19_desc (ds : List (Desc α)) (x y : α) : descLess ds x y = lexLt ds x y := by
+  rw [descLess_eq_lexLt]
+
+/-- … and it is a strict weak order, so (1) applies to the descriptor sorts. -/
+theorem C19_desc_strictWeak (ds : List (Desc α)) : StrictWeak (descLess ds) := by
+  rw [descLess_eq_lexLt]; exact lexLt_strictWeak ds
+
+/-- per key kind, one descriptor: an ascending `ComparableOrdered[int]` descriptor compares by `<`,
+    a descending one by `>`; likewise `ComparableString` with the bytewise string order. -/
+theorem C19_desc_single (f : α → Int) (g : α → List Nat) (x y : α) :
+    descLess [⟨fun r => some (.oi (f r)), true⟩] x y = decide (f x < f y) ∧
+    descLess [⟨fun r => some (.oi (f r)), false⟩] x y = decide (f y < f x) ∧
+    descLess [⟨fun r => some (.cs (g r)), true⟩] x y = bytesLt (g x) (g y) ∧
+    descLess [⟨fun r => some (.cs (g r)), false⟩] x y = bytesLt (g y) (g x) ∧
+    descLess [⟨fun r => some (.os (g r)), true⟩] x y = bytesLt (g x) (g y) ∧
+    descLess [⟨fun r => some (.os (g r)), false⟩] x y = bytesLt (g y) (g x) := by
+  simp [C19_desc, lexLt, Desc.keyLt, optLt, Key.lt]
+
+/-! ## (3) the descriptor sorts, composed -/
+
+/-- `SortedListBySortDescriptors` / `ToSortedList`: the result is a permutation of the input, ordered
+    lexicographically by the descriptors' keys, stable, and the input is left as it was. -/
+theorem C19_sortedList (ds : List (Desc α)) (l : List α) :
+    let (r, after) := sortedListBySortDescriptors ds l
+    r.Perm l ∧ r.Pairwise (fun a b => lexLt ds b a = false) ∧
+    (∀ x, r.filter (equivBy (lexLt ds) x) = l.filter (equivBy (lexLt ds) x)) ∧ after = l := by
+  simp only [sortedListBySortDescriptors, sortBySortDescriptors, sort, descLess_eq_lexLt]
+  exact ⟨sortBy_perm _ l, sortBy_pairwise (lexLt_strictWeak ds) l,
+    sortBy_filter_equiv (lexLt_strictWeak ds) l, trivial⟩
+
+/-- `SortBySortDescriptors` / `builder.Sort`: the same, in place. -/
+theorem C19_sortInPlace (ds : List (Desc α)) (l : List α) :
+    let r := sortBySortDescriptors ds l
+    r.Perm l ∧ r.Pairwise (fun a b => lexLt ds b a = false) ∧
+    (∀ x, r.filter (equivBy (lexLt ds) x) = l.filter (equivBy (lexLt ds) x)) := by
+  simp only [sortBySortDescriptors, sort, descLess_eq_lexLt]
+  exact ⟨sortBy_perm _ l, sortBy_pairwise (lexLt_strictWeak ds) l, sortBy_filter_equiv (lexLt_strictWeak ds) l⟩
+
+/-! ## non-vacuity -/
+
+/-- a comparator with ties that is a strict weak order: parity -/
+example : StrictWeak (fun a b : Nat => decide (a % 2 < b % 2)) :=
+  ⟨fun a => by simp, fun a b c => by simp; omega, fun a b c => by simp; omega⟩
+
+/-- ties are really kept in input order, non-ties really move -/
+example : sortBy (fun a b : Nat => decide (a % 2 < b % 2)) [3, 2, 1, 4, 5] = [2, 4, 3, 1, 5] := by
+  simp [sortBy, List.mergeSort, List.MergeSort.Internal.splitInTwo]
+
+/-- the repository's own example (Age descending, then Name ascending): AB50 / AD30 / BC30 -/
+example :
+    let recs : List (Int × List Nat) := [(30, [66, 67]), (30, [65, 68]), (50, [65, 66])]
+    let ds : List (Desc (Int × List Nat)) :=
+      [⟨fun r => some (.oi r.1), false⟩, ⟨fun r => some (.cs r.2), true⟩]
+    (sortedListBySortDescriptors ds recs).1 = [(50, [65, 66]), (30, [65, 68]), (30, [66, 67])] := by
+  simp [sortedListBySortDescriptors, sortBySortDescriptors, sort, descLess_eq_lexLt, sortBy, List.mergeSort,
+    List.MergeSort.Internal.splitInTwo, lexLt, Desc.keyLt, optLt, Key.lt, bytesLt]
+
+/-- nil keys come first for an ascending descriptor and ties among them are broken by the next one -/
+example :
+    let ds : List (Desc (Option Int × Int)) :=
+      [⟨fun r => r.1.map Key.oi, true⟩, ⟨fun r => some (.oi r.2), false⟩]
+    sortBySortDescriptors ds [(some 1, 0), (none, 1), (some 0, 5), (none, 2)] =
+      [(none, 2), (none, 1), (some 0, 5), (some 1, 0)] := by
+  simp [sortBySortDescriptors, sort, descLess_eq_lexLt, sortBy, List.mergeSort,
+    List.MergeSort.Internal.splitInTwo, lexLt, Desc.keyLt, optLt, Key.lt]
 
 end FpgoVerif.C19
